@@ -252,7 +252,12 @@ int main(int argc, char* const* argv)
     }
 
     if (ca.m.count('P')) {
-        if (!instance.parse_pretend_valid_expr(ca.m['P'].c_str())) {
+        try {
+            if (!instance.parse_pretend_valid_expr(ca.m['P'].c_str())) {
+                return 1;
+            }
+        } catch (std::exception const& ex) {
+            fprintf(stderr, "error parsing --pretend-valid: %s\n", ex.what());
             return 1;
         }
     }
